@@ -22,6 +22,8 @@ def main(ids):
             env = dict(os.environ, XDEPS_REPO=WT, VERIF_EVIDENCE_DIR="/tmp/seed_evidence")
             out = sh(os.path.join(VERIF, "check"), prop, "--tier", "quick", env=env, timeout=1500)
             viol = [l for l in out.stdout.splitlines() if l.startswith("VIOLATION")]
+            if isinstance(meta.get("detected_by"), str):
+                meta["detected_by_note"] = meta["detected_by"]
             meta["detected_by"] = {prop: {"exit": out.returncode, "first_violation": viol[0][:300] if viol else None,
                                           "repo_head": sh("git", "-C", "/repo", "log", "--oneline", "-1").stdout.strip(),
                                           "verif_head": sh("git", "-C", VERIF, "log", "--oneline", "-1").stdout.strip()}}
